@@ -283,7 +283,12 @@ def run(chk):
               'elementpath/regex/unicode_subsets.py', 'elementpath/xpath2/_xpath2_functions.py', 'elementpath/xpath30/_xpath30_functions.py'):
         chk.record_source(f)
     chk.forbidden_scan(['C12'])
-    proved = chk.prove(['theories/C12/Regex.v', 'theories/C12/Classes.v', 'theories/C12/Model.v', 'theories/C12/Proofs.v', 'theories/C12/Run.v'],
+    import sys as _sys
+    _sys.path.insert(0, core.VERIF + '/harness')
+    import gen_c12
+    gen_c12.generate()          # T-data / source-shape facts regenerated from /repo on every run
+    chk.trusted.append('harness/shape.py: AST lookup of the statements mirrored by the hand model (Gen/C12Shape.v)')
+    proved = chk.prove(['theories/Gen/C12Shape.v', 'theories/C12/Regex.v', 'theories/C12/Classes.v', 'theories/C12/Model.v', 'theories/C12/Proofs.v', 'theories/C12/Run.v'],
                        'theories/C12/Properties.v')
     model_ok = True
     if not proved:
